@@ -22,6 +22,7 @@ type RenderOpts struct {
 }
 
 var qualRe = regexp.MustCompile(`«([^»]+)»\.`)
+var qualBareRe = regexp.MustCompile(`‹([^›]+)›`)
 var typeTok = regexp.MustCompile(`⟦(\d+)⟧`)
 var localRe = regexp.MustCompile(`\bv(\d+)\b`)
 var ptrSpellStar = regexp.MustCompile(`\*§P§([^|§]+)\|([^§]+)§`)
@@ -76,6 +77,17 @@ func Render(p *Prog, o RenderOpts) map[string]string {
 				s = ptrSpellPlain.ReplaceAllString(s, "$2")
 				s = parenPtrStar.ReplaceAllString(s, "(*$1)")
 				s = parenPtrPlain.ReplaceAllString(s, "($1)")
+				s = qualBareRe.ReplaceAllStringFunc(s, func(m string) string { // ‹path› = the bare qualifier (used as a local variable name)
+					path := m[len("‹") : len(m)-len("›")]
+					imports[path] = true
+					if r, ok := f.Rename[path]; ok {
+						return r
+					}
+					if pk2, ok := byPath[path]; ok {
+						return pk2.Name
+					}
+					return path[strings.LastIndex(path, "/")+1:]
+				})
 				s = qualRe.ReplaceAllStringFunc(s, func(m string) string {
 					path := m[len("«") : len(m)-len("».")]
 					if path == f.EffPkgPath() {
@@ -94,6 +106,22 @@ func Render(p *Prog, o RenderOpts) map[string]string {
 					s = localRe.ReplaceAllString(s, "w${1}x")
 				}
 				return s
+			}
+			expandQual := func(s string) string { // package qualifiers inside doc comments (e.g. @implements «path».I)
+				return qualRe.ReplaceAllStringFunc(s, func(m string) string {
+					path := m[len("«") : len(m)-len("».")]
+					if path == f.EffPkgPath() {
+						return ""
+					}
+					imports[path] = true
+					if r, ok := f.Rename[path]; ok {
+						return r + "."
+					}
+					if pk2, ok := byPath[path]; ok {
+						return pk2.Name + "."
+					}
+					return path[strings.LastIndex(path, "/")+1:] + "."
+				})
 			}
 			emit := func(indent int, l *Line) {
 				txt := expand(l)
@@ -148,7 +176,7 @@ func Render(p *Prog, o RenderOpts) map[string]string {
 						body = append(body, strings.Repeat("\t", indent)+txt)
 						continue
 					}
-					body = append(body, strings.Repeat("\t", indent)+"//"+d)
+					body = append(body, strings.Repeat("\t", indent)+"//"+expandQual(d))
 				}
 				if detach {
 					body = append(body, "")
